@@ -131,10 +131,50 @@ example :
         .createRec .assertion 2 44 [.h 1, .id ⟨.concept, 1⟩] false,
         .supersede (.id ⟨.assertion, 1⟩) (.h 2) none] }).2 = .refusedPlan .invalid := by decide
 
+/-- **Identity is canonical.** An ENSURE depends on the endpoints it names only through their
+canonical identities (the end of the `merged_into` chain, as this transaction sees it): two clauses
+that name a surviving Concept and one of its merged-away aliases — in subject or object position —
+are the *same* planning step, so they look up, bind or stage the same tuple. Together with
+`tuple_unique` / `tuple_resolves_to_one` (every history, MERGE statements included: no two Proposition
+rows carry one tuple, and a tuple — built from canonicalised endpoints only — resolves to *the* row) and
+`precommit_implies_writes_succeed` (no statement, whatever aliases it names, ends inside the write
+loop) this is the statement over canonical keys. The source facts it rests on are regenerated on every
+run: the one key ENSURE uses is computed after both `canonicalize` calls and is the key of the store
+lookup, of the look at the staged rows and of the staged row (`gen_ensure_key_canonical`), and the
+staged rows are consulted (`gen_ensure_consults_staged`). -/
+theorem ensure_alias_is_survivor (s : Store) (tx : Tx) (h : Option Nat) (a a' b b' : Id) (p : Nat)
+    (e : Option Nat) (bad : Bool) (ha : canonical s tx a = canonical s tx a') (hb : canonical s tx b = canonical s tx b') :
+    applyClause (.ensure h (.id a) p (.id b) e bad) s tx = applyClause (.ensure h (.id a') p (.id b') e bad) s tx ∧
+    Gen.NexusOrder.ensureKeyIsCanonical = true ∧ Gen.NexusOrder.ensureConsultsStaged = true := by
+  refine ⟨?_, Gen.NexusOrder.gen_ensure_key_canonical, Gen.NexusOrder.gen_ensure_consults_staged⟩
+  simp only [applyClause, resolveCanon, resolve, ha, hb]
+
+/-- C2 is merged into C1; then one statement names a tuple that does not exist yet twice, through the
+survivor and through the alias, in either order, as subject and as object: it commits exactly one
+Proposition each time (never `refusedWrite`), carrying the survivor; the alias alone then finds it. -/
+example :
+    let hist : List Stmt := [
+      { dry := false, clauses := [.createConcept 1 1 1 1 false, .createConcept 2 1 2 2 false, .createConcept 3 2 3 3 false] },
+      { dry := false, clauses := [.merge (.id ⟨.concept, 2⟩) (.id ⟨.concept, 1⟩) none] }]
+    let c (n : Nat) : Ref := .id ⟨.concept, n⟩
+    let P (n : Nat) : Id := ⟨.proposition, n⟩
+    (exec (run Store.init hist) { dry := false, clauses := [.ensure (some 1) (c 1) 7 (c 3) none false, .ensure (some 2) (c 2) 7 (c 3) none false] }).2
+      = .done 3 .committed [⟨P 1, .create, 1⟩] ∧
+    (exec (run Store.init hist) { dry := false, clauses := [.ensure (some 1) (c 2) 7 (c 3) none false, .ensure (some 2) (c 1) 7 (c 3) none false] }).2
+      = .done 3 .committed [⟨P 1, .create, 1⟩] ∧
+    (exec (run Store.init hist) { dry := false, clauses := [.ensure none (c 3) 7 (c 2) none false, .ensure none (c 3) 7 (c 1) none false] }).2
+      = .done 3 .committed [⟨P 1, .create, 1⟩] ∧
+    ((exec (run Store.init hist) { dry := false, clauses := [.ensure none (c 2) 7 (c 3) none false] }).1.elems (P 1)).map (·.row.tup)
+      = some (some (⟨.concept, 1⟩, 7, ⟨.concept, 3⟩)) ∧
+    canonical (run Store.init hist) { seq := 3, dry := false, handles := [], staged := [], shells := [] } ⟨.concept, 2⟩ = ⟨.concept, 1⟩ ∧
+    -- a merge that would make canonical resolution cycle, and re-pointing a merged Concept, are refused
+    (exec (run Store.init hist) { dry := false, clauses := [.merge (c 1) (c 2) none] }).2 = .refusedPlan .invalid ∧
+    (exec (run Store.init hist) { dry := false, clauses := [.merge (c 2) (c 3) none] }).2 = .refusedPlan .invalid := by decide
+
 /-- **No clause kind of the engine is silently outside the model.** Every `MutationClause` variant that
 `clauses::apply` dispatches on in the current source (`Gen.NexusOrder.clauseKinds`, regenerated on
 every run) is either interpreted by the model (`Clause.kindName` of some model clause) or named in
-`notModelledKinds`; and the model interprets no kind the engine does not have. All theorems of this
+`notModelledKinds` (empty today: all 16 kinds are modelled); and the model interprets no kind the engine does not have. All theorems of this
 file quantify over every statement built from the modelled kinds. -/
 theorem clause_kinds_covered :
     (∀ k ∈ Gen.NexusOrder.clauseKinds, k ∈ modelledKinds ∨ k ∈ notModelledKinds) ∧
